@@ -11,6 +11,19 @@ ID = "C10"
 PROPS_FILE = "Props/C10.v"
 COQ_TARGETS = ["Harness/H10.vo"]
 ALLOWED_AXIOMS = []
+# coq/Tie/T10.v states the law directly about the comparison code generated from the source text
+# (composition of Tie/T02.v, Tie/T05.v with Props/C10.v)
+EXTRA_PROPS = ["Tie/T10.v"]
+
+
+def prebuild(ctx):
+    import os
+    import sys
+    sys.path.insert(0, os.path.join(C.VERIF, "harness", "translate"))
+    import py2coq_core
+    py2coq_core.prebuild(ctx, C, ["ParetoDominance.compare", "EpsilonDominance.same_box", "EpsilonDominance.compare"])
+
+
 META = {
     "level_text": "Machine-checked proof (Coq) that negating the objectives in any index set J and flipping their declared directions (bounds: min' = -max, max' = -min; "
                   "reference sets flipped likewise) leaves unchanged: ParetoDominance.compare (any carrier whose negation is an involution: the direction-adjusted values are "
@@ -18,7 +31,7 @@ META = {
                   "EpsilonBoxArchive incl. its improvements counter after EVERY insertion history, the non-dominated rank of every object, the normalised objectives up to "
                   "x -> 1-x on J (normalize_flip; the bounds of a flipped reference set are the flipped bounds), the additive epsilon indicator, the exact ingredients of GD / IGD "
                   "(every squared nearest distance and the divisor) and the hypervolume (explicit bounds and reference set; via hv_exact of C15). Theorems are about the literal "
-                  "models of C02-C05, C15, C16; Examples show that the pre-repair hypervolume and epsilon-indicator models violate the law. Tie: every metamorphic case is run in "
+                  "models of C02-C05, C15, C16; Examples show that the pre-repair hypervolume and epsilon-indicator models violate the law. For the three comparison routines the law is also stated about the definitions GENERATED from the source text on every run (Tie/T10.v). Tie: every metamorphic case is run in "
                   "original and flipped form on the REAL classes and on the models (vm_compute), all subsets J for <= 3 objectives, random beyond.",
     "level_note": "Trusted: Coq kernel + VM; the harness; the models are those of C02 (dominance), C05 (epsilon dominance / archives), C03 (Archive), C04 (nd_loop), C15, C16 and are tied "
                   "to the code by those checks and again here on both forms of every case. Indicator theorems are over exact Q (results ==); they assume well-formed sets and that the "
